@@ -30,6 +30,9 @@ enum Step {
     Min { input: usize, mode: MinMode, w: usize, m: usize, threads: usize },
     /// plant stale temp files as if an earlier counter run had crashed before its merge
     PlantStale { parts: u64, chunks: u64 },
+    /// whole-sequence CGR (input 3 holds a record with a non-nucleotide byte: that run is refused / aborts)
+    Cgr { input: usize, s: usize, threads: usize, memory: usize },
+    Kcgr { input: usize, k: usize, s: usize, norm: bool, threads: usize, memory: usize },
 }
 
 impl Step {
@@ -40,6 +43,8 @@ impl Step {
             Step::Cov { input, cfg } => Json::obj().set("run", Json::s("coverage")).set("input", Json::u(*input)).set("cfg", cfg.json()),
             Step::Min { input, mode, w, m, threads } => Json::obj().set("run", Json::s(format!("min {:?}", mode))).set("input", Json::u(*input)).set("w", Json::u(*w)).set("m", Json::u(*m)).set("threads", Json::u(*threads)),
             Step::PlantStale { parts, chunks } => Json::obj().set("run", Json::s("plant stale temp_kmers files")).set("parts", Json::Int(*parts as i128)).set("chunks", Json::Int(*chunks as i128)),
+            Step::Cgr { input, s, threads, memory } => Json::obj().set("run", Json::s("cgr")).set("input", Json::u(*input)).set("S", Json::u(*s)).set("threads", Json::u(*threads)).set("batch_limit", Json::Int(*memory as i128)),
+            Step::Kcgr { input, k, s, norm, threads, memory } => Json::obj().set("run", Json::s("cgr -k")).set("input", Json::u(*input)).set("k", Json::u(*k)).set("S", Json::u(*s)).set("norm", Json::Bool(*norm)).set("threads", Json::u(*threads)).set("batch_limit", Json::Int(*memory as i128)),
         }
     }
 }
@@ -72,6 +77,37 @@ fn execute(step: &Step, inputs: &[String], loc_file: &str, loc_dir: &str) -> Res
             let d = r.1.unwrap_or_default();
             let norm = if *mode == MinMode::M2s { norm_m2s(&d).join("\n").into_bytes() } else { sorted_lines(&d).join(&b"\n"[..]) };
             Ok(vec![("minimiser listing(sorted)".into(), norm)])
+        }
+        Step::Cgr { input, s, threads, memory } => {
+            use composition::cgr::CgrComputer;
+            let r = guarded(|| {
+                let mut c = CgrComputer::new(inputs[*input].clone(), loc_file.to_string(), *s);
+                c.set_threads(*threads);
+                c.verif_set_max_memory(*memory);
+                c.vectorise()
+            });
+            match r {
+                Ok(Ok(())) => Ok(vec![("cgr".into(), std::fs::read(loc_file).unwrap_or_default())]),
+                // a refused run (record with a non-nucleotide byte) is allowed; what it leaves behind must not
+                // influence later runs
+                Ok(Err(e)) => Ok(vec![("cgr(refused)".into(), e.into_bytes())]),
+                Err(_) => Ok(vec![("cgr(refused)".into(), b"panic".to_vec())]),
+            }
+        }
+        Step::Kcgr { input, k, s, norm, threads, memory } => {
+            use composition::oligocgr::OligoCgrComputer;
+            let r = guarded(|| {
+                let mut c = OligoCgrComputer::new(inputs[*input].clone(), loc_file.to_string(), *k, *s);
+                c.set_threads(*threads);
+                c.set_norm(*norm);
+                c.verif_set_max_memory(*memory);
+                c.vectorise()
+            });
+            match r {
+                Ok(Ok(())) => Ok(vec![("kcgr".into(), std::fs::read(loc_file).unwrap_or_default())]),
+                Ok(Err(e)) => Err(format!("Err({})", e)),
+                Err(p) => Err(format!("panic: {}", p)),
+            }
         }
         Step::PlantStale { parts, chunks } => {
             let _ = std::fs::create_dir_all(loc_dir);
@@ -135,7 +171,7 @@ fn gen_ctr_cfg(rng: &mut Rng, total: u64, k: usize) -> CtrCfg {
 }
 
 fn gen_history(rng: &mut Rng, totals: &[u64]) -> Vec<Step> {
-    let family = rng.below(4);
+    let family = rng.below(5);
     let len = rng.usize(2, 3);
     let mut steps = Vec::new();
     let k = rng.usize(2, 12);
@@ -173,6 +209,20 @@ fn gen_history(rng: &mut Rng, totals: &[u64]) -> Vec<Step> {
                 }
             }
         }
+        3 => {
+            // CGR histories: nucleotide-only inputs are 4 and 5; input 3 has a foreign byte in a late record, so
+            // that run is refused after earlier batches may have been written; the last run is never a refused one
+            for j in 0..len {
+                let last = j + 1 == len;
+                let input = if !last && rng.chance(1, 2) { 3 } else { rng.usize(4, 5) };
+                let memory = *rng.pick(&[1usize, 300, 5000, 4 << 30]);
+                if rng.chance(1, 2) {
+                    steps.push(Step::Cgr { input, s: rng.usize(1, 64), threads: rng.usize(1, 8), memory });
+                } else {
+                    steps.push(Step::Kcgr { input: if input == 3 { 4 } else { input }, k: rng.usize(1, 4), s: rng.usize(1, 64), norm: rng.chance(1, 2), threads: rng.usize(1, 8), memory });
+                }
+            }
+        }
         _ => {
             for _ in 0..len {
                 let m = rng.usize(2, 12);
@@ -200,7 +250,20 @@ pub fn lib(ctx: &Ctx) -> Stats {
             inputs.push(sc.write(&format!("in{}.fa", i), &ser::to_fasta(&recs, &SerOpts::plain())));
             all.push(recs);
         }
-        let hist = gen_history(&mut rng, &totals);
+        // inputs for the CGR histories: 3 = nucleotide records with one foreign byte late in the file, 4 and 5 = nucleotide only
+        for (i, nrec) in [(3usize, rng.usize(8, 30)), (4, rng.usize(10, 40)), (5, rng.usize(1, 6))] {
+            let mut recs: Vec<Rec> = (0..nrec)
+                .map(|j| Rec { id: format!("n{}_{}", i, j), desc: None, seq: (0..rng.usize(1, 120)).map(|_| *rng.pick(b"ACGTacgu")).collect() })
+                .collect();
+            if i == 3 {
+                let at = recs.len() * 2 / 3;
+                recs[at].seq.push(b'N');
+            }
+            totals.push(recs.iter().map(|r| r.seq.len() as u64).sum());
+            inputs.push(sc.write(&format!("in{}.fa", i), &ser::to_fasta(&recs, &SerOpts::plain())));
+            all.push(recs);
+        }
+        let hist = gen_history(&mut rng, &totals[..3]);
         let shared_file = sc.path("shared.out");
         let shared_dir = sc.path("shared.dir");
         let fresh_file = sc.path("fresh.out");
@@ -217,6 +280,8 @@ pub fn lib(ctx: &Ctx) -> Stats {
             Step::Cov { .. } => "last=coverage",
             Step::Min { .. } => "last=min",
             Step::PlantStale { .. } => "last=plant",
+            Step::Cgr { .. } => "last=cgr",
+            Step::Kcgr { .. } => "last=cgr -k",
         });
         if hist.iter().any(|s| matches!(s, Step::PlantStale { .. })) {
             st.class("stale-temp-files-planted");
@@ -246,6 +311,8 @@ pub fn lib(ctx: &Ctx) -> Stats {
                     Step::Counter { .. } => "counter".into(),
                     Step::Cov { .. } => "coverage".into(),
                     Step::Min { mode, .. } => format!("min.{:?}", mode),
+                    Step::Cgr { .. } => "cgr".into(),
+                    Step::Kcgr { .. } => "kcgr".into(),
                     _ => "other".into(),
                 };
                 st.violate(
